@@ -85,18 +85,31 @@ def job_scalar(pl, res, rng):
     nb = pl["numba"]
     corr = res["corr"]
     a = np.array([[1.0, 0.25, 0.0], [0.0, 0.8, 0.125], [0.0, 0.0, 0.625]])
-    grids = [("octahedron-distorted", K.octahedron(distort=a))]
+    # non-uniform triangle areas; segment 2 = elements {1,2,4,5,6,7}: not a prefix of the element list, not contiguous
+    SEG = [1, 2, 2, 1, 2, 2, 2, 2]
+    grids = [("octahedron-distorted", K.octahedron(distort=a, domain_indices=SEG))]
     if strength == "thorough":
         grids += [("screen-2x2", K.screen(2)), ("octahedron-segment", K.octahedron(domain_indices=[0, 0, 1, 1, 0, 2, 2, 1]))]
     order = api.GLOBAL_PARAMETERS.quadrature.regular
     table = {(f["package"], f["module"], f["name"]): f for f in (pl.get("table") or [])}
     regular = nb["tables"]["kernel_functions_regular"] if nb else {}
+    builders = {
+        # P1 on the non-prefix segment, boundary dofs dropped: local multipliers 0/1, support_elements[i] != i
+        "P1-segment[2]": lambda g: api.function_space(g, "P", 1, segments=[2]),
+        "DP0": lambda g: api.function_space(g, "DP", 0),
+        "P1": lambda g: api.function_space(g, "P", 1),
+        "DP0-segment[2]": lambda g: api.function_space(g, "DP", 0, segments=[2]),
+        "DP1-segment[2]": lambda g: api.function_space(g, "DP", 1, segments=[2]),
+        "DP0-segment[1]": lambda g: api.function_space(g, "DP", 0, segments=[1]),
+    }
     for gname, grid in grids:
-        spaces = [("DP0", api.function_space(grid, "DP", 0))]
-        if strength == "thorough":
-            spaces.append(("P1", api.function_space(grid, "P", 1)))
-            if gname == "octahedron-segment":
-                spaces.append(("DP0-segment[1]", api.function_space(grid, "DP", 0, segments=[1])))
+        if gname == "octahedron-distorted":
+            names = ["P1-segment[2]"] + (["DP0", "P1", "DP0-segment[2]", "DP1-segment[2]"] if strength == "thorough" else [])
+        elif gname == "octahedron-segment":
+            names = ["DP0", "DP0-segment[1]"]
+        else:
+            names = ["DP0", "P1"]
+        spaces = [(n, builders[n](grid)) for n in names]
         v = grid.vertices
         D = float(np.max(np.linalg.norm(v[:, :, None] - v[:, None, :], axis=0)))
         centre = v.mean(axis=1)
@@ -186,10 +199,7 @@ def job_scalar(pl, res, rng):
             tvec = np.array([0.3, -0.2, 0.45]) * D
             coef = rng.uniform(-1, 1, sp.global_dof_count) + 1j * rng.uniform(-1, 1, sp.global_dof_count)
             gt = api.Grid(grid.vertices + tvec[:, None], grid.elements, grid.domain_indices)
-            if sname.startswith("DP0-segment"):
-                spt = api.function_space(gt, "DP", 0, segments=[1])
-            else:
-                spt = api.function_space(gt, "DP" if sname == "DP0" else "P", 0 if sname == "DP0" else 1)
+            spt = builders[sname](gt)
             dens = density_at(sp, coef, ee, loc) * ww
             for k in (2.2 / D + 0j, 1.7 / D + 0.6j / D, 0.9 / D + 0j):
                 for kind in ("single_layer", "double_layer"):
@@ -246,17 +256,48 @@ def job_scalar(pl, res, rng):
                           {"case": tag, "radii": list(rs), "relative_errors": errs, "bound_at_larger_radius": bound})
 
 
+def rwg_densities(grid, space, coef, order):
+    """Independent recomputation of what the Maxwell potential assemblers accumulate per quadrature point:
+    y_q, v_q = sum_f w_q x_{e,f} |edge_f| J_e phihat_f(q)  (Piola-mapped RWG basis times the integration element), and
+    s_q = sum_f 2 w_q x_{e,f} |edge_f|  (divergence), with x_{e,f} = coef[local2global[e,f]] * local_multipliers[e,f]."""
+    from bempp_cl.api.integration.triangle_gauss import rule
+    pts, w = rule(order)
+    ref = [np.vstack((pts[0], pts[1] - 1)), np.vstack((pts[0] - 1, pts[1])), np.vstack((pts[0], pts[1]))]
+    gp, vv, ss = [], [], []
+    for e in space.support_elements:
+        vt = grid.vertices[:, grid.elements[:, e]]
+        jac = np.column_stack((vt[:, 1] - vt[:, 0], vt[:, 2] - vt[:, 0]))
+        lens = [np.linalg.norm(vt[:, 0] - vt[:, 1]), np.linalg.norm(vt[:, 2] - vt[:, 0]), np.linalg.norm(vt[:, 1] - vt[:, 2])]
+        gp.append(vt[:, [0]] + jac @ pts)
+        v = np.zeros((3, len(w)), dtype=complex)
+        sdiv = np.zeros(len(w), dtype=complex)
+        for f in range(3):
+            x = coef[space.local2global[e, f]] * space.local_multipliers[e, f]
+            v += (w * x * lens[f])[None, :] * (jac @ ref[f])
+            sdiv += 2 * w * x * lens[f]
+        vv.append(v)
+        ss.append(sdiv)
+    return np.hstack(gp), np.hstack(vv), np.hstack(ss)
+
+
 def job_maxwell(pl, res, rng):
-    """Maxwell potentials: curl E = ik H and div H = 0 hold for the quadrature sums themselves (finite-difference accuracy);
-    curl H = -ik E and div E = 0 use a surface integration by parts and hold up to the regular quadrature error, tested
-    as decay with the quadrature order.  Far fields: translation law."""
+    """Maxwell potentials and far fields on an RWG space restricted to a non-prefix segment of a non-uniform mesh.
+    correspondence: API value = sum over the library's quadrature points of the *translated* integrand (gen/MaxwellIntegrands.v)
+    with the translated Helmholtz / far-field kernel value.  search: curl E = ik H, div H = 0 by finite differences; curl H =
+    -ik E, div E = 0 as decay with the regular order (thorough); far-field translation law."""
     import bempp_cl.api as api
     from bempp_cl.api.operators import potential, far_field
+    strength = pl["strength"]
+    nb, mx = pl.get("numba"), pl.get("maxwell")
+    corr = res["corr"]
     a = np.array([[1.0, 0.25, 0.0], [0.0, 0.8, 0.125], [0.0, 0.0, 0.625]])
-    grid = K.octahedron(distort=a)
-    rwg = api.function_space(grid, "RWG", 0)
-    coef = rng.uniform(-1, 1, rwg.global_dof_count) + 1j * rng.uniform(-1, 1, rwg.global_dof_count)
-    f = api.GridFunction(rwg, coefficients=coef)
+    SEG = [1, 2, 2, 1, 2, 2, 2, 2]
+    grid = K.octahedron(distort=a, domain_indices=SEG)
+    builders = {"RWG-segment[2]": lambda g: api.function_space(g, "RWG", 0, segments=[2]),
+                "RWG-segment[2]+boundary": lambda g: api.function_space(g, "RWG", 0, segments=[2], include_boundary_dofs=True),
+                "RWG": lambda g: api.function_space(g, "RWG", 0)}
+    names = ["RWG-segment[2]"] + (["RWG-segment[2]+boundary", "RWG"] if strength == "thorough" else [])
+    order0 = api.GLOBAL_PARAMETERS.quadrature.regular
     pts = np.array([[2.0, 0.3, 0.4], [0.2, -2.5, 1.0], [-1.0, 1.0, 3.0]]).T
     h = 1e-3
     sten = [pts]
@@ -266,6 +307,9 @@ def job_maxwell(pl, res, rng):
         sten += [pts + e, pts - e]
     sten = np.hstack(sten)
     n = pts.shape[1]
+    xhat = np.array([K.unit(rng.normal(size=3)) for _ in range(3)]).T
+    tvec = np.array([0.3, -0.2, 0.45])
+    gt = api.Grid(grid.vertices + tvec[:, None], grid.elements, grid.domain_indices)
 
     def d(F, comp, i):
         return (F[comp, (1 + 2 * i) * n:(2 + 2 * i) * n] - F[comp, (2 + 2 * i) * n:(3 + 2 * i) * n]) / (2 * h)
@@ -275,44 +319,117 @@ def job_maxwell(pl, res, rng):
 
     def div(F):
         return d(F, 0, 0) + d(F, 1, 1) + d(F, 2, 2)
-    for k in (1.3 + 0j, 0.9 + 0.4j):
-        r_ibp = {}
-        for order in (3, 6, 9):
-            par = api.utils.parameters.DefaultParameters()
-            par.quadrature.regular = order
-            E = np.asarray(potential.maxwell.electric_field(rwg, sten, k, parameters=par).evaluate(f))
-            H = np.asarray(potential.maxwell.magnetic_field(rwg, sten, k, parameters=par).evaluate(f))
-            E0, H0 = E[:, :n], H[:, :n]
-            scale = float(max(np.abs(E0).max(), np.abs(H0).max()))
-            tag = "octahedron RWG k=%s regular order %d" % (k, order)
-            r1 = float(np.abs(curl(E) - 1j * k * H0).max()) / scale
-            r2 = float(np.abs(div(H)).max()) / scale
-            check(res, r1 <= 1e-4, "C08 potential.maxwell: curl E != ik H", "finite-difference curl of the electric "
-                  "potential differs from ik times the magnetic potential", {"case": tag, "relative_residual": r1})
-            check(res, r2 <= 1e-4, "C08 potential.maxwell: div H != 0", "finite-difference divergence of the magnetic "
-                  "potential is not zero", {"case": tag, "relative_residual": r2})
-            r_ibp[order] = [float(np.abs(curl(H) + 1j * k * E0).max()) / scale, float(np.abs(div(E)).max()) / scale]
-        res["search"]["worst"]["maxwell curlH+ikE, divE by regular order (3,6,9) k=%s" % k] = [r_ibp[o] for o in (3, 6, 9)]
-        for j, nm in ((0, "curl H != -ik E"), (1, "div E != 0")):
-            a3, a6, a9 = r_ibp[3][j], r_ibp[6][j], r_ibp[9][j]
-            check(res, a9 <= 0.5 * a3 + 1e-5 and a9 <= 2e-3, "C08 potential.maxwell: %s up to quadrature error" % nm,
-                  "the residual does not decay with the regular quadrature order",
-                  {"k": str(k), "relative_residual_orders_3_6_9": [a3, a6, a9]})
-        # far fields: translation law
-        xhat = np.array([K.unit(rng.normal(size=3)) for _ in range(4)]).T
-        tvec = np.array([0.3, -0.2, 0.45])
-        gt = api.Grid(grid.vertices + tvec[:, None], grid.elements, grid.domain_indices)
-        rwgt = api.function_space(gt, "RWG", 0)
-        for nm in ("electric_field", "magnetic_field"):
-            ff = np.asarray(getattr(far_field.maxwell, nm)(rwg, xhat, k).evaluate(f))
-            fft = np.asarray(getattr(far_field.maxwell, nm)(rwgt, xhat, k).evaluate(api.GridFunction(rwgt, coefficients=coef)))
-            want = ff * np.array([cmath.exp(-1j * k * float(np.dot(xhat[:, j], tvec))) for j in range(xhat.shape[1])])[None, :]
-            scale = float(np.abs(ff).max()) + 1e-300
-            sig = ("C08 far_field.maxwell.%s ignores imag(k): translation law fails for complex k" % nm) if k.imag != 0 \
-                else "C08 far_field.maxwell.%s violates the translation law (real k)" % nm
-            check(res, float(np.abs(fft - want).max()) <= 1e-10 * scale * math.exp(abs(k.imag) * 3), sig,
-                  "translating the grid by t does not multiply the Maxwell far field by exp(-i k xhat.t)",
-                  {"k": str(k), "maxdiff": float(np.abs(fft - want).max()), "scale": scale})
+
+    def model_sum(assembler, kernel_name, x, gp, vv, ss, k):
+        """sum_q integrand(x, y_q, G(x,y_q), v_q, s_q, k) with the translated integrand and kernel"""
+        kin = nb["kernels"][kernel_name]
+        out = np.zeros(3, dtype=complex)
+        for q in range(gp.shape[1]):
+            env = K.env_of(x, gp[:, q], (0, 0, 0), (0, 0, 0), (k.real, k.imag))
+            env.update({"Gre": K.ev(kin["re"], env)[0], "Gim": K.ev(kin["im"], env)[0],
+                        "qr": ss[q].real, "qi": ss[q].imag})
+            for c in range(3):
+                env["v%dr" % c], env["v%di" % c] = vv[c, q].real, vv[c, q].imag
+            for c in range(3):
+                out[c] += complex(K.ev(mx[assembler][c][0], env)[0], K.ev(mx[assembler][c][1], env)[0])
+        return out
+
+    for sname in names:
+        sp = builders[sname](grid)
+        spt = builders[sname](gt)
+        nd = sp.global_dof_count
+        coef = rng.uniform(-1, 1, nd) + 1j * rng.uniform(-1, 1, nd)
+        f = api.GridFunction(sp, coefficients=coef)
+        # the harness's own local coefficients must agree with the library's map to the full grid
+        xlib = np.asarray(sp.map_to_full_grid @ (sp.dof_transformation @ coef)).ravel()
+        xown = np.zeros(3 * grid.number_of_elements, dtype=complex)
+        for e in sp.support_elements:
+            for fi in range(3):
+                xown[3 * e + fi] = coef[sp.local2global[e, fi]] * sp.local_multipliers[e, fi]
+        check(res, float(np.max(np.abs(xlib - xown))) <= 1e-14, "C08 harness: local RWG coefficients differ from map_to_full_grid",
+              "local2global/local_multipliers and map_to_full_grid @ dof_transformation disagree",
+              {"space": sname, "maxdiff": float(np.max(np.abs(xlib - xown)))})
+        for k in (1.3 + 0j, 0.9 + 0.4j):
+            orders = (order0,) if strength == "quick" else (3, 6, 9)
+            r_ibp = {}
+            for order in orders:
+                par = api.utils.parameters.DefaultParameters()
+                par.quadrature.regular = order
+                E = np.asarray(potential.maxwell.electric_field(sp, sten, k, parameters=par).evaluate(f))
+                H = np.asarray(potential.maxwell.magnetic_field(sp, sten, k, parameters=par).evaluate(f))
+                E0, H0 = E[:, :n], H[:, :n]
+                scale = float(max(np.abs(E0).max(), np.abs(H0).max()))
+                tag = "octahedron-distorted %s k=%s regular order %d" % (sname, k, order)
+                if nb and mx and order == orders[0]:
+                    gp, vv, ss = rwg_densities(grid, sp, coef, order)
+                    for nm, api_vals, asm in (("electric_field", E0, "maxwell_efield_potential"),
+                                              ("magnetic_field", H0, "maxwell_mfield_potential")):
+                        for j in range(n):
+                            m = model_sum(asm, "helmholtz_single_layer_regular", pts[:, j], gp, vv, ss, k)
+                            corr["evaluations"] += 3
+                            corr["nontrivial"] += int(np.sum(np.abs(api_vals[:, j]) > 0))
+                            corr["hist"]["maxwell potential = translated-integrand sum"] = corr["hist"].get(
+                                "maxwell potential = translated-integrand sum", 0) + 3
+                            if not np.max(np.abs(m - api_vals[:, j])) <= 1e-11 * scale:
+                                corr["disagreements"].append({
+                                    "kind": "kernel-sum",
+                                    "what": "potential.maxwell.%s differs from the sum of the translated integrand over the "
+                                            "library's quadrature points: %s" % (nm, tag),
+                                    "data": {"point": pts[:, j].tolist(), "api": [[z.real, z.imag] for z in api_vals[:, j]],
+                                             "model": [[z.real, z.imag] for z in m]}})
+                            elif j == 0 and len(corr["samples"]) < 6:
+                                corr["samples"].append({"case": "potential.maxwell.%s %s" % (nm, tag),
+                                                        "point": pts[:, 0].tolist(), "api": [[z.real, z.imag] for z in api_vals[:, 0]]})
+                r1 = float(np.abs(curl(E) - 1j * k * H0).max()) / scale
+                r2 = float(np.abs(div(H)).max()) / scale
+                res["search"]["worst"]["maxwell curlE-ikH %s k=%s order %d" % (sname, k, order)] = round(r1, 9)
+                check(res, r1 <= 1e-4, "C08 potential.maxwell: curl E != ik H", "finite-difference curl of the electric "
+                      "potential differs from ik times the magnetic potential", {"case": tag, "relative_residual": r1})
+                check(res, r2 <= 1e-4, "C08 potential.maxwell: div H != 0", "finite-difference divergence of the magnetic "
+                      "potential is not zero", {"case": tag, "relative_residual": r2})
+                r_ibp[order] = [float(np.abs(curl(H) + 1j * k * E0).max()) / scale, float(np.abs(div(E)).max()) / scale]
+            # curl H = -ik E and div E = 0 rest on a surface integration by parts: only for div-conforming densities
+            # (RWG with the half functions on the segment boundary kept is not div-conforming: line charges on the boundary)
+            if sname.endswith("+boundary"):
+                pass
+            elif len(orders) == 3:
+                res["search"]["worst"]["maxwell curlH+ikE, divE by regular order (3,6,9) %s k=%s" % (sname, k)] = [r_ibp[o] for o in orders]
+                for j, nm in ((0, "curl H != -ik E"), (1, "div E != 0")):
+                    a3, a9 = r_ibp[3][j], r_ibp[9][j]
+                    check(res, a9 <= 0.5 * a3 + 1e-5 and a9 <= 2e-3, "C08 potential.maxwell: %s up to quadrature error" % nm,
+                          "the residual does not decay with the regular quadrature order",
+                          {"space": sname, "k": str(k), "relative_residual_orders_3_6_9": [r_ibp[o][j] for o in orders]})
+            else:
+                # one order only: the integration-by-parts relations hold up to the regular quadrature error (few percent)
+                for j, nm in ((0, "curl H != -ik E"), (1, "div E != 0")):
+                    check(res, r_ibp[order0][j] <= 0.2, "C08 potential.maxwell: %s up to quadrature error" % nm,
+                          "the residual is far beyond the regular quadrature error",
+                          {"space": sname, "k": str(k), "relative_residual": r_ibp[order0][j], "order": order0})
+            # far fields: kernel-sum correspondence and translation law
+            gp, vv, ss = rwg_densities(grid, sp, coef, order0)
+            for nm, asm in (("electric_field", "maxwell_efield_far_field"), ("magnetic_field", "maxwell_mfield_far_field")):
+                ff = np.asarray(getattr(far_field.maxwell, nm)(sp, xhat, k).evaluate(f))
+                scale = float(np.abs(ff).max()) + 1e-300
+                if nb and mx:
+                    for j in range(xhat.shape[1]):
+                        m = model_sum(asm, "helmholtz_far_field_single_layer", xhat[:, j], gp, vv, ss, k)
+                        corr["evaluations"] += 3
+                        corr["nontrivial"] += int(np.sum(np.abs(ff[:, j]) > 0))
+                        corr["hist"]["maxwell far field = translated-integrand sum"] = corr["hist"].get(
+                            "maxwell far field = translated-integrand sum", 0) + 3
+                        if not np.max(np.abs(m - ff[:, j])) <= 1e-11 * scale:
+                            corr["disagreements"].append({
+                                "kind": "kernel-sum",
+                                "what": "far_field.maxwell.%s differs from the sum of the translated integrand: %s k=%s" % (nm, sname, k),
+                                "data": {"direction": xhat[:, j].tolist(), "api": [[z.real, z.imag] for z in ff[:, j]],
+                                         "model": [[z.real, z.imag] for z in m]}})
+                fft = np.asarray(getattr(far_field.maxwell, nm)(spt, xhat, k).evaluate(api.GridFunction(spt, coefficients=coef)))
+                want = ff * np.array([cmath.exp(-1j * k * float(np.dot(xhat[:, j], tvec))) for j in range(xhat.shape[1])])[None, :]
+                sig = ("C08 far_field.maxwell.%s ignores imag(k): translation law fails for complex k" % nm) if k.imag != 0 \
+                    else "C08 far_field.maxwell.%s violates the translation law (real k)" % nm
+                check(res, float(np.abs(fft - want).max()) <= 1e-10 * scale * math.exp(abs(k.imag) * 3), sig,
+                      "translating the grid by t does not multiply the Maxwell far field by exp(-i k xhat.t)",
+                      {"space": sname, "k": str(k), "maxdiff": float(np.abs(fft - want).max()), "scale": scale})
 
 
 def main():
